@@ -150,17 +150,20 @@ structure SendResO where
   panic : Bool
 deriving Repr
 
+/-- `Send` — the tests in the order of `Kcp.send` / `Kcp.send_eq`: a call that is refused because it
+would need more than 255 segments (−2) returns before the stream-mode append touches the queue: no
+pool event, no change -/
 def sendO (o : KcpO) (buffer : Bytes) : SendResO :=
   let r := o.k.send buffer
   if buffer.length = 0 then ⟨o, r.ret, r.panic⟩ else
   let ext := sendExt o.k buffer
+  let buf := buffer.drop ext
+  let mss := o.k.mss.toNat
+  if sendCount buf mss > 255 then ⟨o, r.ret, r.panic⟩ else
   if sendPanic1 o.k ext then ⟨o, r.ret, r.panic⟩ else
   let q1 := if ext > 0 then appendLastO o.sq (buffer.take ext) else o.sq
   let g1 := if ext > 0 then o.gh.use (lastBuf o.sq) else o.gh
-  let buf := buffer.drop ext
-  let mss := o.k.mss.toNat
   if o.k.stream ≠ 0 ∧ buf.length = 0 then ⟨{ o with k := r.k, sq := q1, gh := g1 }, r.ret, r.panic⟩ else
-  if sendCount buf mss > 255 then ⟨{ o with k := r.k, sq := q1, gh := g1 }, r.ret, r.panic⟩ else
   -- `newSegment(size)` with `size > cap`: Get, then the slice expression panics
   if min buf.length mss > mtuLimit then ⟨{ o with k := r.k, sq := q1, gh := g1.getLost }, r.ret, r.panic⟩ else
   let n := mkSegsO mss (o.k.stream ≠ 0) (if sendCount buf mss = 0 then 1 else sendCount buf mss) buf g1
